@@ -162,7 +162,7 @@ func c01ModCases(yield func(vc01.Case) bool) {
 			for _, ml := range methods {
 				for _, bl := range bodies {
 					for _, mod := range vc01.ModsNoClass {
-						if !yield(vc01.Case{Codec: "dubbothrift", Dir: dir, Kind: "mod", Mod: mod, Class: cl, Hdr: vref.HeaderShape{Pairs: 1, KLen: ml}, Body: bl, Seed: cl + bl + 1, ID: 0x0a0b0c0d0e0f1011, NewID: 0xf1f2f3f4f5f6f7f8}) {
+						if !vc01.ModTwins(vc01.Case{Codec: "dubbothrift", Dir: dir, Kind: "mod", Mod: mod, Class: cl, Hdr: vref.HeaderShape{Pairs: 1, KLen: ml}, Body: bl, Seed: cl + bl + 1, ID: 0x0a0b0c0d0e0f1011, NewID: 0xf1f2f3f4f5f6f7f8}, yield) {
 							return
 						}
 					}
@@ -186,6 +186,6 @@ func TestVerifC01DubboThriftModify(t *testing.T) {
 	p := vreport.Begin("C01", "dubbothrift-modify", time.Duration(vreport.Pick(60, 900))*time.Second)
 	a := c01Adapter()
 	complete := vreport.Run(p, c01ModCases, func(p *vreport.Part, c vc01.Case) { vc01.CheckMod(p, a, c) })
-	p.End(complete, "dirs {request, response} x service {1,256 | thorough: all} x method {1,256 | all} x binary field {0,1,256,65536 | all} x 10 modifications",
-		"modification applied through HeaderMap.Set/Del and SetData; then three upstream attempts (SetData(same buffer object), SetRequestId, Encode): the first Encode must return an error or, like each later one, bytes that the reference parser AND a fresh Decode read back as exactly the modified headers/body with consistent lengths. Header view = service, method, seqId, messageType; body = the thrift message")
+	p.End(complete, "dirs {request, response} x service {1,256 | thorough: all} x method {1,256 | all} x binary field {0,1,256,65536 | all} x 10 modifications"+vc01.ModTwinsBound,
+		"modification applied through HeaderMap.Set/Del and SetData; then three upstream attempts (SetData(same buffer object), SetRequestId, Encode): the first Encode must return an error or, like each later one, bytes that the reference parser AND a fresh Decode read back as exactly the modified headers/body with consistent lengths. Header view = service, method, seqId, messageType; body = the thrift message"+vc01.ModTwinsRule)
 }
